@@ -112,7 +112,9 @@ func (t *Transpiler) transpileArithBinOps(b *parser.BinaryExpr, op influxql.Toke
 }
 
 func (t *Transpiler) comOpBuildNewFilter(scalar influxql.Expr, preField influxql.Expr, returnBool bool, stmt *influxql.SelectStatement) bool {
-	if _, ok := preField.(*influxql.BinaryExpr); ok {
+	// a comparison with the bool modifier is never a filter: it yields 0 or 1 for every sample,
+	// also when the operand is itself a binary expression, e.g. `0 >= bool (1 < bool m)`.
+	if _, ok := preField.(*influxql.BinaryExpr); ok && !returnBool {
 		return true
 	}
 	if _, ok := scalar.(*influxql.Call); ok && !returnBool {
